@@ -124,6 +124,9 @@ Proof.
     rewrite IH by (intros x Hx; apply Hb; right; exact Hx). cbn. rewrite reportF_none. reflexivity.
 Qed.
 
+Lemma app2_nil_l : forall {A B} (x : list A * list B), app2 ([], []) x = x.
+Proof. intros A B [a b]. reflexivity. Qed.
+
 Lemma repr_none : forall k, repr_ckey F0 [] k = Some k.
 Proof. reflexivity. Qed.
 Lemma orig_none : forall ck, orig_key F0 [] ck = ck.
@@ -227,7 +230,23 @@ Proof.
             apply assoc_In in Ea. destruct Ea as [k2 [Hin _]].
             rewrite (Hx v2 _ _ (Hv1 _ _ (or_introl eq_refl)) (nbk_dict_val _ _ _ Hn2 Hin)). cbn [bind].
             rewrite IHr. reflexivity.
-          * cbn [bind]. rewrite IHr. cbn [bind app2 fst snd app].
-      Show.
-Abort.
+          * cbn [bind]. rewrite IHr. cbn [bind]. rewrite app2_nil_l. reflexivity.
+        + cbn [bind]. rewrite IHr. cbn [bind]. rewrite app2_nil_l. reflexivity.
+      - rewrite IHr. cbn [bind]. rewrite app2_nil_l. reflexivity. }
+    rewrite Hgo. reflexivity.
+  - destruct t2 as [b|ys|ys|kvs2|ys|ys]; head; cbn [ty_eqb negb]; rewrite ?reportF_none; try reflexivity; try (destruct b; reflexivity).
+    rewrite diff_setF_none. reflexivity.
+  - destruct t2 as [b|ys|ys|kvs2|ys|ys]; head; cbn [ty_eqb negb]; rewrite ?reportF_none; try reflexivity; try (destruct b; reflexivity).
+    rewrite diff_setF_none. reflexivity.
+Qed.
+
+(* the whole run *)
+Theorem run_optF_no_opts : forall t1 t2,
+  nbk t1 = true -> nbk t2 = true ->
+  run_optF udiff ops c F0 t1 t2 = Ok (run_diff (hatomF F0) udiff ops nop nop c t1 t2).
+Proof.
+  intros t1 t2 H1 H2. unfold run_optF, run_diff. rewrite (diffF_no_opts t1 t2 [] [] H1 H2). cbn.
+  destruct (diff (hatomF F0) udiff ops nop nop c t1 t2 [] []). reflexivity.
+Qed.
+
 End Tie.
